@@ -796,3 +796,123 @@ def run_steps(payload):
             o["raised"] = f"{type(ex).__name__}: {ex}"[:300]
         res.append(o)
     return res
+
+
+GROUPS = ("pin_cite", "extra", "parenthetical", "year", "court", "publisher", "day", "month", "antecedent", "volume")
+
+
+def _opt(s):
+    return [-1] if s is None else [ord(ch) for ch in s]
+
+
+def run_meta(payload):
+    """Document-level records for Trace_Meta.tla (needs the guarded hook: EYECITE_VERIF=1): the text, the token
+    list, and per citation built from a token (extraction order) the matcher events and the returned metadata."""
+    try:
+        from eyecite import _verif
+    except ImportError:
+        return [{"hooks": False} for _ in payload["items"]]
+    if not _verif.ENABLED:
+        return [{"hooks": False} for _ in payload["items"]]
+    from eyecite import get_citations
+    from eyecite.models import (CitationToken, FullCaseCitation, FullJournalCitation, FullLawCitation, IdCitation,
+                                ParagraphToken, ReferenceCitation, ShortCaseCitation, StopWordToken, SupraCitation, Token,
+                                UnknownCitation)
+    from eyecite.tokenizers import default_tokenizer
+    res = []
+    for it in payload["items"]:
+        text = it["text"]
+        o = {"hooks": True, "text": [ord(ch) for ch in text], "words": [], "cites": [], "raised": "", "skipped": ""}
+        if any(ch.isdigit() and not ch.isascii() for ch in text):
+            o["skipped"] = "non-ASCII digit (outside the model's digit class)"
+            res.append(o)
+            continue
+        try:
+            words, _ = default_tokenizer.tokenize(text)
+            for w in words:
+                if isinstance(w, ParagraphToken):
+                    k = "para"
+                elif isinstance(w, StopWordToken):
+                    k = "stopv" if w.groups.get("stop_word") == "v" else "stop"
+                elif isinstance(w, CitationToken):
+                    k = "cite"
+                elif isinstance(w, Token):
+                    k = "oth"
+                else:
+                    k = "w"
+                o["words"].append({"k": k, "n": len(str(w)), "semi": k not in ("stop", "stopv") and str(w).endswith(";")})
+            del _verif.EVENTS[:]
+            cs = get_citations(text)
+            events = list(_verif.EVENTS)
+            del _verif.EVENTS[:]
+            for c in cs:
+                if isinstance(c, ReferenceCitation):
+                    continue
+                form = ("full" if isinstance(c, FullCaseCitation) else "short" if isinstance(c, ShortCaseCitation)
+                        else "supra" if isinstance(c, SupraCitation) else "id" if isinstance(c, IdCitation)
+                        else "law" if isinstance(c, FullLawCitation) else "journal" if isinstance(c, FullJournalCitation)
+                        else "unknown" if isinstance(c, UnknownCitation) else "other")
+                i = c.index
+                ts, te = c.token.start, c.token.end
+                fev = next((e for e in events if e["forward"] and e["start_index"] == i + 1), None)
+                bevs = [e for e in events if not e["forward"] and e["start_index"] == i - 1]
+                bev = bevs[-1] if bevs else None
+                nog = {g: [-1, -1] for g in GROUPS}
+                fwd = {"present": fev is not None, "matched": False, "pre": 0, "wlen": 0, "g": dict(nog)}
+                back = {"present": bev is not None, "matched": False, "mlen": 0, "wlen": 0, "g": dict(nog)}
+                winok = True
+                if fev:
+                    fwd.update(pre=fev["prefix_len"], wlen=len(fev["text"]), matched=fev["span"] is not None)
+                    ws = te - fev["prefix_len"]
+                    winok = winok and text[ws:ws + len(fev["text"])] == fev["text"]
+                    for g, sp in fev["groups"].items():
+                        if g in fwd["g"]:
+                            fwd["g"][g] = sp
+                if bev:
+                    back.update(wlen=len(bev["text"]), matched=bev["span"] is not None)
+                    winok = winok and text[ts - len(bev["text"]):ts] == bev["text"]
+                    if bev["span"] is not None:
+                        back["mlen"] = bev["span"][1] - bev["span"][0]
+                    for g, sp in bev["groups"].items():
+                        if g in back["g"]:
+                            back["g"][g] = sp
+                md = c.metadata
+                g = lambda n: _opt(getattr(md, n, None))  # noqa: E731
+                yn = getattr(c, "year", None)
+                obs = {"pin": g("pin_cite"), "extra": g("extra"), "paren": g("parenthetical"), "year": g("year"),
+                       "ynum": -99 if yn is None else yn, "plaintiff": g("plaintiff"), "defendant": g("defendant"),
+                       "ante": g("antecedent_guess"), "publisher": g("publisher"), "day": g("day"), "month": g("month"),
+                       "volume": g("volume"), "fsattr": -99 if c.full_span_start is None or form != "full" else c.full_span_start}
+                # the model's whitespace class for the defendant-year pattern is blank / tab and no line breaks:
+                # outside it the citation still drives the fold (prev) but its values are not compared
+                region = text[max(0, ts - 400):ts]
+                judge = form in ("full", "short", "supra", "id", "law", "journal") and not (
+                    form == "full" and any(ch.isspace() and ch not in " \t" for ch in region))
+                o["cites"].append({"form": form, "idx": i + 1, "ts": ts, "te": te, "fwd": fwd, "back": back, "obs": obs,
+                                   "winok": winok, "judge": judge})
+        except Exception as ex:  # noqa: BLE001
+            o["raised"] = f"{type(ex).__name__}: {ex}"[:300]
+            o["cites"] = []
+        res.append(o)
+    return res
+
+
+def run_meta_funcs(payload):
+    """Replay of MC_Meta behaviours: the real process_parenthetical / clean_pin_cite / get_year on the model's inputs."""
+    from eyecite import helpers
+    out = []
+    for it in payload["items"]:
+        s = "".join(map(chr, it["txt"]))
+        if it["mode"] == "paren":
+            out.append({"out": _opt(helpers.process_parenthetical(s))})
+        elif it["mode"] == "strip":
+            out.append({"out": _opt(helpers.clean_pin_cite(s))})
+        else:
+            y = helpers.get_year(s)
+            out.append({"out": -99 if y is None else y})
+    return out
+
+
+def highest_year(payload):
+    from eyecite import helpers
+    return helpers._highest_valid_year
